@@ -213,5 +213,72 @@ func runC19(c *Ctx) {
 		okL := len(lk) == 1 && lk[0].Instr.Block() == f.Blocks[0]
 		c.check(okL, "C19.lock", "layerBucket."+n+" runs under the bucket lock", f.Pos(), "Lock at entry", "bucket method does not take bk.lock at entry")
 	}
+	// ---- after a flush the layer is empty again: list reset on both modes, every handle switched
+	initCalls := c.calls(fl, func(cc *ssa.CallCommon) bool { return methodName(cc) == "Init" })
+	if len(initCalls) == 0 {
+		c.violate("C19.flush-reset", "Flush clears the pending list", fl.Pos(), "no Init() of the pending list")
+	}
+	for _, rs := range returnSites(fl) {
+		if !isNilConst(rs.Results[0]) {
+			continue
+		}
+		tr, by := pathAvoidingEdges(fl, fl.Blocks[0].Instrs[0], func(in ssa.Instruction) bool { return in == ssa.Instruction(rs.Ret) }, func(in ssa.Instruction) bool {
+			for _, ic := range initCalls {
+				if in == ssa.Instruction(ic.Instr) {
+					return true
+				}
+			}
+			return false
+		}, wTrue("already committed", `^\$r\.flushed$`))
+		c.check(!by, "C19.flush-reset", "Flush succeeds only after clearing the pending list", rs.pos(), "list.Init() on every path (commit and discard)", "a flush returns success with the pending list intact (path "+traceString(tr)+"): discarded writes are replayed by the next commit")
+	}
+	nData := 0
+	for _, st := range fieldStores([]*ssa.Function{fl}, "layerBucket", "data") {
+		nData++
+		_, isMap := st.Store.Val.(*ssa.MakeMap)
+		for _, alt := range altGuards(st.Store.Block()) {
+			_, wr := holds(alt, wTrue("commit", `^\$0$`))
+			_, dis := holds(alt, wFalse("discard", `^\$0$`))
+			switch {
+			case wr:
+				c.check(isNilConst(st.Store.Val), "C19.flush-reset", "commit switches every handle to pass-through", st.Store.Pos(), "data = nil", "after a commit the bucket handles keep buffering (data = "+render(st.Store.Val)+") although later flushes are no-ops: later writes never reach the store")
+			case dis:
+				c.check(isMap, "C19.flush-reset", "discard gives every handle an empty layer", st.Store.Pos(), "data = make(map)", "after a discard data = "+render(st.Store.Val))
+			default:
+				c.violate("C19.flush-reset", "bucket handle reset is decided by the flush mode", st.Store.Pos(), "guards: "+guardsString(alt))
+			}
+		}
+	}
+	if nData < 2 {
+		c.undecided("C19.flush-reset", "bucket handle resets", fl.Pos(), fmt.Sprintf("expected 2 stores to layerBucket.data, found %d", nData))
+	}
+	// ---- one handle per bucket, and none after the commit
+	if gb := c.mustFn(pkg, "layerDB", "GetBucket"); gb != nil {
+		n := 0
+		for _, e := range exitAlts(gb) {
+			v := e.Results[0]
+			if mi, ok := v.(*ssa.MakeInterface); ok {
+				v = mi.X
+			}
+			al, ok := v.(*ssa.Alloc)
+			if !ok || namedOf(al.Type()) != "layerBucket" {
+				continue
+			}
+			n++
+			c.requireGuard("C19.bucket-handles", "GetBucket wraps a bucket in a layer", e.pos(), e.Guards, wFalse("not committed yet", `^\$r\.flushed$`))
+			reg := false
+			for _, b := range gb.Blocks {
+				for _, in := range b.Instrs {
+					if mu, ok := in.(*ssa.MapUpdate); ok && mu.Value == ssa.Value(al) && render(mu.Map) == "$r.buckets" && (render(mu.Key) == "string($0)" || render(mu.Key) == "$0") && dominatesInstr(mu, e.Ret) {
+						reg = true
+					}
+				}
+			}
+			c.check(reg, "C19.bucket-handles", "the new layer bucket is registered under its id", e.pos(), "buckets[string(id)] = bk", "the layer bucket is handed out without being registered: a second GetBucket creates another layer for the same bucket and Flush does not reach this one")
+		}
+		if n == 0 {
+			c.undecided("C19.bucket-handles", "GetBucket", gb.Pos(), "no exit handing out a new layer bucket")
+		}
+	}
 	_ = token.NoPos
 }
